@@ -114,7 +114,7 @@ func longOne(t *testing.T, seed int64) (trace []longLine, prob *longProblem, byt
 		var calls []callInfo
 		nTok, nIn := 0, 0
 		closed, sEOF, reqPending, started, waited, inpipe, rdOpen := false, false, false, false, false, false, cfgStdin == "reader"
-		startKindPending := false
+		startKindPending, kaPending := false, false
 		preData := 0
 
 		// do executes one event, waits for quiescence and records the observation
@@ -260,6 +260,9 @@ func longOne(t *testing.T, seed int64) (trace []longLine, prob *longProblem, byt
 				}
 			}
 			trace = append(trace, ln)
+			if k == "ska" && ln.Ka == "" {
+				kaPending = true
+			}
 			// the driver's own bookkeeping (what it did, not what the model says)
 			switch k {
 			case "sclose", "close", "sdrop":
@@ -384,8 +387,11 @@ func longOne(t *testing.T, seed int64) (trace []longLine, prob *longProblem, byt
 					return
 				}
 			case r == 13:
-				if !do("ska", "", 0) {
-					return
+				// a second want-reply request while one is unanswered would wait for the channel's request mutex
+				if !kaPending {
+					if !do("ska", "", 0) {
+						return
+					}
 				}
 			case r == 14:
 				if started && !waited {
@@ -461,7 +467,11 @@ func longOne(t *testing.T, seed int64) (trace []longLine, prob *longProblem, byt
 			if order == 1 {
 				ex()
 			}
-			evs = append(evs, [3]any{[]string{"sclose", "sclose", "sdrop"}[rng.Intn(3)], "", 0})
+			endKind := []string{"sclose", "sclose", "sdrop"}[rng.Intn(3)]
+			if len(evs) > 0 && evs[0][0] == "sdata" {
+				endKind = "sclose" // data still in flight when the connection disappears may be lost: not a session-layer promise
+			}
+			evs = append(evs, [3]any{endKind, "", 0})
 			for i, e := range evs {
 				mode := 1
 				if i == len(evs)-1 {
